@@ -200,7 +200,42 @@ def run_one(ctx, name, build, kind, f, gts, eqs, opts):
     return None, (meta, cin, cq(ids)), meta
 
 
+def is_feasible_direct(ctx):
+    """the feasibility test itself, at and around its boundaries (binary fractions, so every comparison is exact): the generated
+    function gen_is_feasible (Gen/GenSolrec.v) is evaluated inside Coq on the same (values, tolerances) and the answers are compared;
+    the property statement (g >= -ineq_tol, |h| <= eq_tol) is evaluated here as well"""
+    from sageopt.relaxations import sig_solution_recovery as ssr
+    tols = [Fraction(1, 2 ** 20), Fraction(0), Fraction(1, 2), Fraction(1, 2 ** 40)]
+    cases, fails = [], []
+    for it, et in [(a, b) for a in tols for b in tols]:
+        unit_i, unit_e = (it or Fraction(1, 2 ** 20)), (et or Fraction(1, 2 ** 20))
+        for k in range(12):
+            gv = [ctx.rng.choice([-2, -1, Fraction(-1, 2), 0, 1, 3]) * unit_i for _ in range(ctx.rng.randint(0, 3))]
+            hv = [ctx.rng.choice([-2, -1, Fraction(-1, 2), 0, Fraction(1, 2), 1, 2]) * unit_e for _ in range(ctx.rng.randint(0, 3))]
+            gts = [(lambda x, v=float(v): v) for v in gv]
+            eqs = [(lambda x, v=float(v): v) for v in hv]
+            got = bool(ssr.is_feasible(np.zeros(1), gts, eqs, float(it), float(et)))
+            want = all(v >= -it for v in gv) and all(abs(v) <= et for v in hv)
+            if got != want and not fails:
+                fails.append('is_feasible(inequality values %s, equality values %s, ineq_tol=%s, eq_tol=%s) = %s; the property requires %s'
+                             % ([str(v) for v in gv], [str(v) for v in hv], it, et, got, want))
+            cases.append((cq((gv, hv, it, et)), cq(got)))
+    hdr = 'From Coq Require Import List Bool QArith.\nFrom SageVerif Require Import Gen.GenSolrec Base.Corr.\nImport ListNotations.'
+    mism, err = vlib.run_suite_in_coq(ctx.pid, 'is_feasible_direct', hdr, "fun x => let '(g, h, it, et) := x in gen_is_feasible g h it et",
+                                      'Bool.eqb', 'list Q * list Q * Q * Q', 'bool', cases, shard=400)
+    ctx.evaluations += len(cases)
+    ctx.suites['is_feasible_direct'] = {'cases': len(cases), 'mismatches': None if mism is None else len(mism), 'oracle_failure': fails[:1]}
+    if err:
+        ctx.problem('correspondence', 'suite is_feasible_direct: ' + err)
+    elif mism:
+        ctx.problem('correspondence', 'suite is_feasible_direct: the function generated from the source and the implementation disagree on %s'
+                    % cases[mism[0]][0], inputs={'is_feasible_case': cases[mism[0]][0]}, failing_input_found=False)
+    if fails:
+        ctx.problem('oracle', 'property fails on the implementation: ' + fails[0], inputs={'is_feasible_case': fails[0]}, failing_input_found=True)
+
+
 def run(ctx):
+    is_feasible_direct(ctx)
     cases = []
     optsets = [{}, {'zero_tol': 1e-6}, {'ineq_tol': 0.0, 'eq_tol': 0.0}, {'skip_ls': True}, {'ineq_tol': 1e-6, 'eq_tol': 1e-4}, {'ineq_tol': 1e-9, 'eq_tol': 0.25}, {'all_signs': False}, {'heuristic_signs': False, 'zero_tol': 1e-12}]
     for rep in range(ctx.n(1, 6)):
